@@ -1,4 +1,4 @@
-import Pcore.Proofs.ValueRT
+import Pcore.Proofs.TypeRT
 /-!
 # C05 — Printing and parsing are inverse for types and literal values
 
@@ -30,7 +30,19 @@ Full statement / proved / missing
                        Missing from the value statement: types as values and object instances (constructor-call forms
                        `My::T('a' => 1)` need `ResolveDeferred`/`px.New`, which are not modelled) — checked on the
                        implementation only (direct predicate `rt-val` with types, objects, Binary, SemVer, URI).
-* layer 4, types     — see the end of this file.
+* layers 2–4, types  — `C05_type_roundtrip_partial`: for every type `t` of the modelled fragment in the normal form the
+                       creators produce (`WFTy`): parsing the text `t` prints and resolving it through the positional
+                       creators yields exactly `t` (hence a type equal to `t` that prints the same text again).
+                       Fragment: the parameterless core types, Integer[…], String[…] (size constrained; the exact-value
+                       form directly inside Optional/NotUndef), Boolean[b], Enum[…] (incl. the case-insensitivity flag),
+                       Regexp[/…/], Pattern[…], Optional NotUndef Type Sensitive Iterable Iterator, Variant[…],
+                       Array[…], Hash[…], Collection[…], Tuple[…] (with and without a size) — arbitrarily nested, all Int64 bounds, all string contents.
+                       The full statement `C05_type_roundtrip_full` (over the whole `Ty`) is false exactly at the
+                       property's stated exception: `C05_exact_string_prints_plain`.
+                       Missing (no theorem; direct predicate on the implementation only): Float[…] (float rendering),
+                       Struct, Callable, Runtime, Init, Like, Object, TypeSet, aliases, TypeReference and the leaf
+                       types with parameters (known findings C05-leaf-type-params, -lazy-type, -nominal-type,
+                       -callable-block).
 -/
 namespace Pcore.Syntax
 
@@ -112,5 +124,53 @@ example (env : Env) (h : env.pf ['1', '.', '5'] = some 4609434218613702656) :
     Lit env (.arr [.float 4609434218613702656 ['1', '.', '5']]) := by
   simp only [Lit, LitL, and_true]
   exact ⟨fun k hk => nextToken_simple_float env.isLetter '1' [] '5' [] k (by decide) (by simp) (by decide) (by simp) hk, h⟩
+
+/-! ### types -/
+
+/-- the full-strength statement over the modelled type terms (false: see `C05_exact_string_prints_plain`) -/
+def C05_type_roundtrip_full : Prop :=
+  ∀ (env : Env) (t : Ty), parseType env (syms (printTy t)) = some t
+
+/-- **types**: `resolve (parse (print t)) = t` on the fragment.  `WFTy env.rxOK t`: bounds are Int64 with lo ≤ hi, names are
+    core type names, regexp sources are representable and compile, a case-insensitive Enum holds lower-case ASCII
+    values, a Variant does not have exactly one member (`Variant[T]` *is* `T`), and an exact-value String occurs only
+    directly inside Optional / NotUndef (elsewhere it prints as plain String — the property's stated exception). -/
+theorem C05_type_roundtrip_partial (env : Env) (t : Ty) (h : WFTy env.rxOK t) :
+    parseType env (syms (printTy t)) = some t :=
+  type_rt env t h
+
+/-- consequence in the property's own words: the re-parsed type prints the same text again -/
+theorem C05_type_reprint (env : Env) (t : Ty) (h : WFTy env.rxOK t) :
+    ∃ t', parseType env (syms (printTy t)) = some t' ∧ printTy t' = printTy t :=
+  ⟨t, type_rt env t h, rfl⟩
+
+/-- non-vacuity: a nested type with every kind of parameter -/
+def sampleTy : Ty :=
+  .hash (.wrap .optional (.strVal ['i', 't', '\'', 's']))
+    (.variant [.array (.int (-9223372036854775808) 5) 1 9223372036854775807, .enum [['a'], ['b', '\\']] true,
+               .pattern [['\\', 'd', '+'], []], .wrap .type_ (.strSz 0 10), .array tyUnit 0 0, .named "Data".toList,
+               .tuple [.bool (some true), .regexp ['a', '/', 'b']] (some (1, 9223372036854775807)), .tuple [tyString] none])
+    2 2
+example : WFTy envEx.rxOK sampleTy := by
+  simp only [sampleTy, WFTy, WFTys, inI64, i64min, i64max, tyUnit, tyString, envEx]
+  decide
+example : parseType envEx (syms (printTy sampleTy)) = some sampleTy :=
+  C05_type_roundtrip_partial envEx sampleTy (by
+    simp only [sampleTy, WFTy, WFTys, inI64, i64min, i64max, tyUnit, tyString, envEx]; decide)
+
+/-- the stated exception is real: `String['x']` prints as `String`, which resolves to the unconstrained String -/
+theorem C05_exact_string_prints_plain : ¬ C05_type_roundtrip_full := by
+  intro h
+  have h1 := h envEx (.strVal ['x'])
+  have e0 : tyExpr (.strVal ['x']) = tyExpr tyString := by
+    unfold tyString
+    rw [tyExpr, tyExpr]
+    rfl
+  have e : printTy (.strVal ['x']) = printTy tyString := by
+    unfold printTy; rw [e0]
+  have hwf : WFTy envEx.rxOK tyString := by
+    simp only [tyString, WFTy]; decide
+  rw [e, C05_type_roundtrip_partial envEx tyString hwf] at h1
+  simp [tyString] at h1
 
 end Pcore.Syntax
